@@ -743,6 +743,10 @@ def join_pmappings(
                 break  # nothing left worth splitting
             pg, perm = left[best_k][best_i]
             first, second = pg.split_in_half()
+            # Remember which group the halves came from: their merged results are put
+            # back together below, so that splitting only spreads the work and does not
+            # change what the rest of the join sees.
+            first._split_from = second._split_from = getattr(pg, "_split_from", pg)
             left[best_k][best_i] = (first, perm)
             left[best_k].insert(best_i + 1, (second, perm))
 
@@ -812,6 +816,11 @@ def join_pmappings(
                         _pmapping_row_filter_function=_pmapping_row_filter_function,
                         ignored_resources=ignored_resources,
                     )
+                )
+                combined[-1]._merged_from = (
+                    id(getattr(a, "_split_from", a)),
+                    id(b),
+                    compatibility_joined,
                 )
 
                 if DO_PRINT:
@@ -941,6 +950,19 @@ def join_pmappings(
             )
             for c, mapping in zip(combined, mappings):
                 c.mappings = mapping
+        # Put the results of split left groups back together, in order
+        rejoined: dict[Any, list[PmappingGroup]] = {}
+        for c in combined:
+            rejoined.setdefault(getattr(c, "_merged_from", id(c)), []).append(c)
+        if len(rejoined) < len(combined):
+            combined = []
+            for g in rejoined.values():
+                if len(g) > 1:
+                    whole = PmappingGroup.concat(g)
+                    whole.tensors.update(g[0].tensors)
+                    whole.n_pre_prune_mappings = sum(c.n_pre_prune_mappings for c in g)
+                    g = [whole]
+                combined.append(g[0])
         timer.print_time("Pmapping merging")
 
         if not any(len(s.mappings.data) for s in combined):
